@@ -4,8 +4,9 @@
     MCHECKIMAGE <one part of RAWDUMP> || O <off> <size> …  → `CK ok` | `CK <n> <violation> …`
     MARENA <headerSize> <startTableSize> <size | r<size>>*  → `AR <offset>:<tableSize> …`  (one entry per allocation;
                                                               `r<size>` = a reservation, i.e. a call with offset == NULL)
-    MCOMPILEU <entry>*                                       → canonical logical table of `compileUnfinalised`, or `T null`
-    MADDFINAL <entry>* / <entry>                             → `compileString` on the finalised table: `D <ret> same|changed`
+    MADDSEQ <k> <entry>*    (C15) the first k entries are compiled (`compileUnfinalised`), the others are added one by one with
+                            `compileString`                  → `AS <return values as 0/1, or .> | <canonical logical table>` | `AS null`
+    MADDFINAL <k> <entry>*  the same after finalisation (`compile`) → `AF <return values> same|changed`
 -/
 import LouModel.Image
 import LouModel.EngineProto
@@ -130,8 +131,36 @@ def arenaTrace (a : Arena) : List Ev → List String
     let (a', off) := a.alloc s
     s!"{off}:{a'.tableSize}" :: arenaTrace a' rest
 
+/-- `lou_compileString` for each rule in turn (the executable twin of `Lou.C15.addSeq`) -/
+def addSeq (t : Table) : List Compile.Entry → Table × List Bool
+  | [] => (t, [])
+  | e :: es =>
+    let r := Compile.compileString t e
+    let rest := addSeq r.2 es
+    (rest.1, r.1 :: rest.2)
+
+def showFlags (l : List Bool) : String := if l.isEmpty then "." else String.ofList (l.map fun b => if b then '1' else '0')
+
 def handle? (toks : List String) : Option String :=
   match toks with
+  | "MADDSEQ" :: k :: ents =>
+    some <| (do
+      let k ← k.toNat?
+      let es ← ents.mapM EngineProto.parseEntry
+      match Compile.compileUnfinalised (es.take k) with
+      | none => pure "AS null"
+      | some t =>
+        let r := addSeq t (es.drop k)
+        pure s!"AS {showFlags r.2} | {EngineProto.showTable r.1}").getD "BADOP"
+  | "MADDFINAL" :: k :: ents =>
+    some <| (do
+      let k ← k.toNat?
+      let es ← ents.mapM EngineProto.parseEntry
+      match Compile.compile (es.take k) with
+      | none => pure "AF null"
+      | some t =>
+        let r := addSeq t (es.drop k)
+        pure s!"AF {showFlags r.2} {if EngineProto.showTable r.1 == EngineProto.showTable t then "same" else "changed"}").getD "BADOP"
   | "MCHECKTABLE" :: rest =>
     let body := " ".intercalate rest
     if (body.splitOn ",LOOP").length > 1 then some "CK 1 chain:loop" else
